@@ -283,7 +283,18 @@ func ruleUnsendCountdown(c *Ctx) {
 				continue
 			}
 			fa, ok := st.Addr.(*ssa.FieldAddr)
-			if !ok || fa.X != ssa.Value(fn.Params[0]) || st.Block() != fn.Blocks[0] {
+			if !ok || st.Block() != fn.Blocks[0] {
+				continue
+			}
+			base := fa.X
+			for {
+				inner, isFA := base.(*ssa.FieldAddr)
+				if !isFA {
+					break
+				}
+				base = inner.X // counters grouped in a nested / embedded struct
+			}
+			if base != ssa.Value(fn.Params[0]) {
 				continue
 			}
 			if k, isK := constInt(st.Val); isK {
@@ -443,7 +454,7 @@ func ruleQueueFlagWhole(c *Ctx) {
 					continue
 				}
 				c.inst(1)
-				c.check(p.guardedBy(call, open) != nil, fnName(g), "a re-check of access starts only when no reason holds events back", p.InstrPos(call), "handleReaccess under queueFlag == 0",
+				c.check(p.guardedUp(call, open, 0), fnName(g), "a re-check of access starts only when no reason holds events back", p.InstrPos(call), "handleReaccess under queueFlag == 0",
 					"a re-check starts while events are held back: its own hold-back reason is lifted by the earlier one's completion (or the other way round), and events pass before the new verdict")
 			}
 		}
@@ -1140,6 +1151,18 @@ func ruleGCUnsend(c *Ctx) {
 		if depth > 6 || v == nil {
 			return false
 		}
+		if f, _ := fieldLoad(v); f != nil && f.Pkg() != nil && f.Pkg().Name() == "server" {
+			// a member of the collector's own record that is only ever given the sent-ness
+			if bt, ok := f.Type().Underlying().(*types.Basic); ok && bt.Kind() == types.Bool && len(p.stores[f]) > 0 {
+				for _, st := range p.stores[f] {
+					if !wasSent(st.Val, depth+1) {
+						return false
+					}
+				}
+				return true
+			}
+			return false
+		}
 		switch x := v.(type) {
 		case *ssa.Call:
 			return calleeFunc(&x.Call) == isSentM && isSentM != nil
@@ -1213,6 +1236,13 @@ func ruleGCUnsend(c *Ctx) {
 				}
 				return []Ev{{Kind: "not-sent"}}
 			}
+			// the answer of a predicate helper the engine went through: what it returned on this path
+			if rc := t.Resolve(fr, cond); rc.V != nil && rc.V != cond {
+				cond, fr = rc.V, rc.Fr
+				if u, ok := cond.(*ssa.UnOp); ok && u.Op == token.NOT {
+					cond, d = u.X, !d
+				}
+			}
 			x, op, k, ok := cmpConst(cond)
 			if !ok {
 				return nil
@@ -1282,6 +1312,9 @@ func ruleGCUnsend(c *Ctx) {
 			nVis++
 			c.inst(1)
 			sp := &Spec{InlineHelpers: true}
+			sp.Inline = func(t *Tracer, fr *Frame, cl ssa.CallInstruction, f *ssa.Function) bool {
+				return p.isRepoFn(f) && isSmallPredicate(f)
+			}
 			sp.Branch = branch(false)
 			sp.Classify = func(t *Tracer, fr *Frame, in ssa.Instruction) []Ev {
 				if st, ok := in.(*ssa.Store); ok {
@@ -1324,6 +1357,9 @@ func ruleGCUnsend(c *Ctx) {
 	{
 		c.inst(1)
 		sp := &Spec{InlineHelpers: true, NoCombs: true}
+		sp.Inline = func(t *Tracer, fr *Frame, cl ssa.CallInstruction, f *ssa.Function) bool {
+			return p.isRepoFn(f) && isSmallPredicate(f)
+		}
 		sp.Branch = branch(true)
 		sp.Classify = func(t *Tracer, fr *Frame, in ssa.Instruction) []Ev {
 			if call, ok := isCallTo(in, trav); ok {
@@ -1437,7 +1473,7 @@ func ruleRemoveCountHeld(c *Ctx) {
 			}
 			n++
 			c.inst(1)
-			c.check(p.guardedBy(st, anyHolder) != nil, fnName(g), "a count of a subscription is lowered only while the subscription has a holder", p.InstrPos(st), "behind direct+indirect+indirectsent != 0",
+			c.check(p.guardedUp(st, anyHolder, 0), fnName(g), "a count of a subscription is lowered only while the subscription has a holder", p.InstrPos(st), "behind direct+indirect+indirectsent != 0",
 				"Subscription."+f.Name()+" is lowered on a path that has not established that the subscription has any holder: a release for a subscription already let go drives the count negative")
 		}
 	}
@@ -1651,17 +1687,21 @@ func ruleRequestedOnce(c *Ctx) {
 		return
 	}
 	n := 0
-	for _, g := range p.withNewHelpers(fn) {
+	family := p.withNewHelpers(fn)
+	for _, g := range family {
 		for _, call := range callsIn(g) {
 			if _, ok := isCallTo(call, send); !ok {
 				continue
 			}
 			n++
 			c.inst(1)
-			// lift the site out of the closures it is nested in, looking for the store at every level
-			ok := false
-			var at ssa.Instruction = call
-			for depth := 0; depth < 6 && at != nil && !ok; depth++ {
+			// look for the store where the request is made, then where the closure it is made in was created, then
+			// — for a helper extracted from addSubscriber — at the helper's call sites inside addSubscriber
+			var okAt func(at ssa.Instruction, depth int) bool
+			okAt = func(at ssa.Instruction, depth int) bool {
+				if depth > 6 {
+					return false
+				}
 				h := at.Block().Parent()
 				for _, in := range instrsOf(h) {
 					st, isSt := in.(*ssa.Store)
@@ -1673,15 +1713,29 @@ func ruleRequestedOnce(c *Ctx) {
 						continue
 					}
 					if k, isK := constInt(st.Val); isK && k == kReq && dominates(st, at) {
-						ok = true
+						return true
 					}
 				}
 				if mc := p.parent[h]; mc != nil {
-					at = mc
-				} else {
-					at = nil
+					return okAt(mc, depth+1)
 				}
+				if h == fn || p.onReferenceTree(h) {
+					return false
+				}
+				sites := 0
+				for _, g2 := range family {
+					for _, c2 := range callsIn(g2) {
+						if c2.Common().StaticCallee() == h {
+							sites++
+							if !okAt(c2, depth+1) {
+								return false
+							}
+						}
+					}
+				}
+				return sites > 0
 			}
+			ok := okAt(call, 0)
 			c.check(ok, fnName(g), "a get request goes out only after the entry is marked as requested", p.InstrPos(call), "state = stateRequested dominates the request",
 				"the get request is sent on a path that has not stored stateRequested: every subscriber arriving before the answer sends a request of its own; a later answer re-initialises the entry and wipes the events applied since the first")
 		}
@@ -1740,26 +1794,65 @@ func ruleWorkerQueueReset(c *Ctx) {
 		c.undecided("(*server.wsConn).outputWorker", "anchor", "-", "not found")
 		return
 	}
+	// the queue's own fields, when it has become a type of its own
+	queueField := func(f *types.Var) bool {
+		if f == fQueue {
+			return true
+		}
+		t := fQueue.Type()
+		if pt, ok := t.(*types.Pointer); ok {
+			t = pt.Elem()
+		}
+		if nt, ok := t.(*types.Named); ok {
+			if st, ok := nt.Underlying().(*types.Struct); ok {
+				for i := 0; i < st.NumFields(); i++ {
+					if st.Field(i) == f {
+						return true
+					}
+				}
+			}
+		}
+		return false
+	}
+	resets := func(b *ssa.BasicBlock) bool {
+		for _, in := range b.Instrs {
+			if st, ok := in.(*ssa.Store); ok {
+				if fa, ok := st.Addr.(*ssa.FieldAddr); ok && queueField(fieldOfAddr(fa)) {
+					return true
+				}
+			}
+			if call, ok := in.(ssa.CallInstruction); ok {
+				if sf := call.Common().StaticCallee(); sf != nil && p.isRepoFn(sf) {
+					for _, f := range p.MayWrite(call) {
+						if queueField(f) {
+							return true
+						}
+					}
+				}
+			}
+		}
+		return false
+	}
 	n := 0
 	for _, g := range p.withNewHelpers(fn) {
+		if g.Parent() != nil {
+			continue
+		}
 		live := liveBlocks(g)
 		for _, hb := range g.Blocks {
 			if live != nil && !live[hb] {
 				continue
 			}
-			i := blockIf(hb)
-			if i == nil {
-				continue
-			}
-			fs := map[*types.Var]bool{}
-			condFields(p, i.Cond, 0, fs)
 			body := loopBody(hb)
-			if !fs[fQueue] || len(body) == 0 {
+			if len(body) == 0 || innermostLoopHeader(hb) == nil && false {
 				continue
 			}
-			// the drain loop: it runs queue elements
+			// the drain loop: the innermost loop that runs function values
 			runs := false
 			for b := range body {
+				if innermostLoopHeader(b) != hb {
+					continue
+				}
 				for _, in := range b.Instrs {
 					if call, ok := in.(*ssa.Call); ok && call.Call.StaticCallee() == nil && !call.Call.IsInvoke() {
 						if _, isB := call.Call.Value.(*ssa.Builtin); !isB {
@@ -1773,22 +1866,14 @@ func ruleWorkerQueueReset(c *Ctx) {
 			}
 			n++
 			c.inst(1)
-			resets := func(b *ssa.BasicBlock) bool {
-				for _, in := range b.Instrs {
-					if st, ok := in.(*ssa.Store); ok {
-						if fa, ok := st.Addr.(*ssa.FieldAddr); ok && fieldOfAddr(fa) == fQueue {
-							return true
-						}
-					}
-				}
-				return false
-			}
 			bad := ""
 			seen := map[*ssa.BasicBlock]bool{}
 			var work []*ssa.BasicBlock
-			for _, s := range hb.Succs {
-				if !body[s] {
-					work = append(work, s)
+			for b := range body {
+				for _, s2 := range b.Succs {
+					if !body[s2] {
+						work = append(work, s2)
+					}
 				}
 			}
 			for len(work) > 0 {
@@ -1798,7 +1883,7 @@ func ruleWorkerQueueReset(c *Ctx) {
 					continue
 				}
 				seen[b] = true
-				if b == hb || body[b] {
+				if body[b] {
 					bad = "the worker can come back to running the queue without having emptied it: every task runs again on the next wake-up"
 					break
 				}
@@ -1817,11 +1902,11 @@ func ruleWorkerQueueReset(c *Ctx) {
 				}
 				work = append(work, succs...)
 			}
-			c.check(bad == "", fnName(g), "the worker empties the task queue after running it, on every path back to waiting", p.InstrPos(i), "every path from the drain loop's exit back to it stores the queue", bad)
+			c.check(bad == "", fnName(g), "the worker empties the task queue after running it, on every path back to waiting", p.Pos(g.Pos()), "every path from the drain loop's exit back to it stores the queue", bad)
 		}
 	}
 	if n == 0 {
-		c.viol(fnName(fn), "the worker empties the task queue after running it", p.Pos(fn.Pos()), "drain loop not found: anchor lost")
+		c.undecided(fnName(fn), "the worker empties the task queue after running it", p.Pos(fn.Pos()), "drain loop not recognised")
 	}
 }
 
@@ -1856,7 +1941,7 @@ func ruleResettingGate(c *Ctx) {
 			}
 			n++
 			c.inst(1)
-			c.check(p.guardedBy(call, notResetting) != nil, fnName(g), "a state event is applied to the cached copy only while no re-fetch is outstanding ("+calleeName(call.Common())+")", p.InstrPos(call), "behind resetting == false",
+			c.check(p.guardedUp(call, notResetting, 0), fnName(g), "a state event is applied to the cached copy only while no re-fetch is outstanding ("+calleeName(call.Common())+")", p.InstrPos(call), "behind resetting == false",
 				"the event is applied while the re-fetch of a reset is outstanding: the answer is diffed against a copy the clients never saw in that state, and they are sent the change twice or not at all")
 		}
 	}
@@ -1883,7 +1968,7 @@ func ruleResettingGate(c *Ctx) {
 			}
 			m++
 			c.inst(1)
-			c.check(p.guardedBy(st, notResetting) != nil, fnName(g), "a re-fetch is started only when none is outstanding", p.InstrPos(st), "resetting = true behind resetting == false",
+			c.check(p.guardedUp(st, notResetting, 0), fnName(g), "a re-fetch is started only when none is outstanding", p.InstrPos(st), "resetting = true behind resetting == false",
 				"a second re-fetch is started while one is outstanding: the first answer lowers the flag, events are applied again, and the second answer is diffed against a copy that already moved on")
 		}
 	}
@@ -1900,7 +1985,10 @@ func ruleResettingGate(c *Ctx) {
 func ruleUnregisterEmpty(c *Ctx) {
 	p := c.P
 	fn := p.Fn("(*rescache.ResourceSubscription).Unsubscribe")
-	unreg := p.Method("rescache.ResourceSubscription.unregister")
+	var unreg *types.Func
+	if uf := p.Fn("(*rescache.ResourceSubscription).unregister"); uf != nil {
+		unreg, _ = uf.Object().(*types.Func)
+	}
 	fSubs := p.Field("rescache.ResourceSubscription.subs")
 	if fn == nil || unreg == nil || fSubs == nil {
 		c.undecided("(*rescache.ResourceSubscription).Unsubscribe", "anchor", "-", "not found")
@@ -1934,7 +2022,7 @@ func ruleUnregisterEmpty(c *Ctx) {
 			}
 			n++
 			c.inst(1)
-			c.check(p.guardedBy(call, empty) != nil, fnName(g), "an unsubscribe unregisters a query variant only when no subscriber is left", p.InstrPos(call), "behind len(subs) == 0",
+			c.check(p.guardedUp(call, empty, 0), fnName(g), "an unsubscribe unregisters a query variant only when no subscriber is left", p.InstrPos(call), "behind len(subs) == 0",
 				"the variant is unregistered while subscribers remain: they get no more query events or resets for a resource they still hold")
 		}
 	}
